@@ -5,6 +5,8 @@
 //   ratio_decision   a pair of ratios (adjacent doubles, 2^-k, 1-2^-k, subnormals, <0, >1, +-inf)
 //                    x a set of trace ids CONSTRUCTED around ratio*2^64 (+-40, +-4096, +-2^k, top,
 //                    bottom, between the two thresholds, uniform)
+//   ratio_sweep      65 equally spaced ids (step 2^j) centred on the boundary of one of two ordered
+//                    ratios: one decision flip per ratio, in order, inside the tolerance band
 //   parent_based     ParentBased (direct / factory / nested) over a call-counting delegate, a
 //                    sequence of calls with generated parent contexts
 //   constant         AlwaysOn / AlwaysOff (direct / factory) over generated parents, ids, extras
@@ -1107,8 +1109,8 @@ std::string text_of(nostd::string_view v)
 }
 
 // ParentBased around `delegate`, built directly or through the factory, possibly nested
-std::shared_ptr<sdkt::Sampler> wrap_parent_based(vh::Reader &rd, std::shared_ptr<sdkt::Sampler> delegate,
-                                                 unsigned depth, bool factory)
+std::shared_ptr<sdkt::Sampler> wrap_parent_based(std::shared_ptr<sdkt::Sampler> delegate, unsigned depth,
+                                                 bool factory)
 {
   std::shared_ptr<sdkt::Sampler> s = delegate;
   for (unsigned i = 0; i < depth; ++i)
@@ -1118,7 +1120,6 @@ std::shared_ptr<sdkt::Sampler> wrap_parent_based(vh::Reader &rd, std::shared_ptr
     else
       s = std::make_shared<sdkt::ParentBasedSampler>(s);
   }
-  (void)rd;
   return s;
 }
 }  // namespace
@@ -1134,7 +1135,7 @@ VH_TARGET(parent_based, 4,
   auto delegate   = std::make_shared<CountingSampler>(script);
   unsigned depth  = 1 + static_cast<unsigned>(rd.weighted({8, 2, 1}));
   bool factory    = rd.coin();
-  auto pb         = wrap_parent_based(rd, delegate, depth, factory);
+  auto pb         = wrap_parent_based(delegate, depth, factory);
   c.note("ParentBased^" + std::to_string(depth) + (factory ? "(factory) " : " ") + script.text + "\n");
   c.tag("delegate-" + std::string(script.mode == 0 ? dname(script.decision)
                                                    : (script.mode == 1 ? "AlwaysOn"
@@ -1257,9 +1258,16 @@ VH_TARGET(constant, 3,
     sdkt::SamplingResult res = call(*s, par.ctx, id, ex);
     VH_CHECK(c, res.decision == want, wdesc << " answered " << dname(res.decision) << " for " << par.text << " id="
                                             << show_id(id) << " " << ex.text);
+    // not part of "constant", but documented: the span keeps its parent's trace state.  A null
+    // result makes the Tracer fall back to the parent's; for an invalid context that still carries
+    // a trace state both "empty" and "that one" are accepted.
     if (res.trace_state)
-      VH_CHECK(c, res.trace_state->ToHeader() == (par.valid ? par.ts_header : std::string()),
-               wdesc << " returned trace state '" << vh::show(res.trace_state->ToHeader()) << "' for " << par.text);
+    {
+      std::string got = res.trace_state->ToHeader();
+      VH_CHECK(c, got == par.ts_header || (!par.valid && got.empty()),
+               wdesc << " returned trace state '" << vh::show(got) << "' for " << par.text << " ts='" << par.ts_header
+                     << "'");
+    }
     bool psampled = par.ctx.IsSampled();
     if ((par.valid && psampled != on) || (!par.valid && psampled))
       c.nontrivial = true;
